@@ -422,6 +422,27 @@ func (s *Stream) executeFlow(
 		return shortCircuitNode, nil
 	}
 
+	var err error
+	if !utils.IsInterfaceNil(startFromNode) {
+		// Early response: the response walk continues from the response-side connections of
+		// the processor that answered the request (a response direction used only for early
+		// responses needs no root). No connection means there is nothing to continue with.
+		closureFunc := func() error {
+			for _, edge := range startFromNode.GetEdges() {
+				if !edge.IsNodeAvailable() {
+					// the edge connects to the stream, meaning 'end of walk'
+					continue
+				}
+				_, err = s.apiStreams.ExecuteFlow(flow, apiStream, edge.GetTargetNode(), actions)
+				if err != nil {
+					return err
+				}
+			}
+			return nil
+		}
+		return shortCircuitNode, s.metricsData.measureFlowExecutionTime(closureFunc)
+	}
+
 	// TODO: Handle the case where the root is not set.
 	// we need to create the globalStream nodes and set them as default root.
 	// If needed we could replace them with the needed root.
@@ -431,22 +452,6 @@ func (s *Stream) executeFlow(
 	}
 	node := start.GetNode()
 
-	if !utils.IsInterfaceNil(startFromNode) {
-		// If we have a short circuit, we need to start from the node that caused it
-		// We assume that the node (GenerateResponse) has only one edge (one target node)
-		if len(startFromNode.GetEdges()) != 0 {
-			edge := startFromNode.GetEdges()[0]
-			if !edge.IsNodeAvailable() {
-				// if no node is available, it means node connects to stream, meaning 'end of walk'
-				return shortCircuitNode, nil
-			}
-			node = edge.GetTargetNode()
-		} else {
-			log.Debug().Msgf("Short circuit node %v has no target node", startFromNode.GetProcessorKey())
-		}
-	}
-
-	var err error
 	closureFunc := func() error {
 		shortCircuitNode, err = s.apiStreams.ExecuteFlow(flow, apiStream, node, actions)
 		return err
